@@ -49,6 +49,7 @@ type Program struct {
 	// new function with the same package, receiver and signature: the new function answers to the old name.
 	renamed     map[*ssa.Function]string
 	owner       map[*ssa.Function]string // see FuncName
+	absorbed    map[string]*ssa.Function // reference functions inlined into their only caller
 	RenameNotes []string
 	storeCache map[*ssa.Function]map[string]bool
 }
@@ -707,10 +708,42 @@ func (p *Program) Func(name string) *ssa.Function {
 	return nil
 }
 
+// FuncCallee resolves a function for who-calls-it rules: a function that was inlined into its only caller has no
+// call sites left, so nil is returned for it (and nothing is recorded); a function that is really gone is recorded.
+func (p *Program) FuncCallee(name string) *ssa.Function {
+	f := p.FuncOpt(name)
+	if f == nil {
+		p.Unresolved = append(p.Unresolved, "func "+name)
+		return nil
+	}
+	if p.absorbed[name] == f {
+		return nil
+	}
+	return f
+}
+
 // FuncOpt is Func without recording a failure.
 func (p *Program) FuncOpt(name string) *ssa.Function {
 	for _, f := range p.Funcs {
 		if p.rawName(f) == name {
+			return f
+		}
+	}
+	// a function that is gone and had a single caller in the reference tree was inlined into that caller
+	if cs := knownCallers[name]; len(cs) == 1 && knownFuncs[name] && !strings.Contains(name, "$") {
+		if _, renamedAway := p.absorbed[name]; !renamedAway {
+			for _, f := range p.Funcs {
+				if f.Parent() == nil && p.rawName(f) == cs[0] {
+					if p.absorbed == nil {
+						p.absorbed = map[string]*ssa.Function{}
+					}
+					p.absorbed[name] = f
+					p.RenameNotes = append(p.RenameNotes, fmt.Sprintf("function %s of the reference tree is gone; its only caller %s is analysed in its place (inlined)", name, cs[0]))
+					sort.Strings(p.RenameNotes)
+				}
+			}
+		}
+		if f := p.absorbed[name]; f != nil {
 			return f
 		}
 	}
